@@ -464,6 +464,19 @@ def _after_select(case, ctx, cfg, kind, f, img, mask, t, nwarn, rows_open, cols,
             'kernel_point_symmetric')
     cy, cx = kd.shape[0] // 2, kd.shape[1] // 2
     require(kd[cy, cx] == kd.max(), 'kernel_peak_centre')
+    # kernel half-sizes = tangents of the sigma_radius ellipse (documented
+    # truncation radius), at least 2 px
+    sig = cfg['fwhm'] / (2.0 * math.sqrt(2.0 * math.log(2.0)))
+    rat = cfg['ratio'] if kind == 'dao' else 1.0
+    tht = math.radians(cfg['theta']) if kind == 'dao' else 0.0
+    hx = cfg['sigma_radius'] * math.hypot(sig * math.cos(tht), sig * rat * math.sin(tht))
+    hy = cfg['sigma_radius'] * math.hypot(sig * math.sin(tht), sig * rat * math.cos(tht))
+    if min(abs(hx - round(hx)), abs(hy - round(hy))) > 1e-6:
+        exp_shape = (2 * int(max(2, hy)) + 1, 2 * int(max(2, hx)) + 1)
+        require(kd.shape == exp_shape, 'kernel_size',
+                f'{kind}: kernel shape {kd.shape} for fwhm {cfg["fwhm"]}, ratio '
+                f'{rat}, theta {cfg["theta"]}, sigma_radius '
+                f'{cfg["sigma_radius"]}; the truncation ellipse gives {exp_shape}')
     conv = convolve(img, kd, mode='constant', cval=0.0)
     thr_eff = cfg['threshold'] * K.relerr if kind == 'dao' else cfg['threshold']
     ms = f.min_separation
@@ -575,7 +588,7 @@ def star_cases(draw):
            'ratio': draw(st.sampled_from([1.0, 1.0, 0.7, 0.4])),
            'kshape': draw(st.sampled_from([[7, 7], [7, 7], [5, 9], [9, 5]])),
            'theta': draw(st.sampled_from([0.0, 30.0])),
-           'sigma_radius': draw(st.sampled_from([1.5, 2.0])),
+           'sigma_radius': draw(st.sampled_from([1.5, 2.0, 3.1])),
            'sharplo': -1e30 if wide else draw(st.sampled_from([0.2, 0.4, 0.5])),
            'sharphi': 1e30 if wide else draw(st.sampled_from([1.0, 0.8, 2.0])),
            'roundlo': -1e30 if wide else draw(st.sampled_from([-1.0, -0.3, 0.0])),
